@@ -19,7 +19,7 @@ CLAIMS = {
     ),
     'C02': (
         'The distance is decided part by part for ALL hash values: each body kernel (32/64-bit pseudo-SIMD, and per lane SSE2/SSE4.1/AVX2) == sum of reference dibit distances over exactly its own bytes for all pairs of chunks; each distance_12/32/64 of each backend == sum of its kernel over the right chunks (SIMD: kernel stubbed, arbitrary bounded lanes, so a lane-width overflow in the horizontal sum is a counterexample); the entry points select the proved backend; Q-ratio, length and checksum distances == reference for all 2^16 pairs in every table configuration; compare_with_config == sum of the four parts for all pairs of values, both modes, all five variants.',
-        "Trusted: Kani's MIR->goto translation, CBMC 6.11 + CaDiCaL, the reference model in harness/refmodel.rs (independent table copies), the stubs listed per harness in the evidence (each a model of an unsupported intrinsic, a proved contract, or a caller-supplied trait impl). Sums are composed by hand (kernel lemma + structure lemma). SIMD harnesses call each x86 backend directly; packed add/sub/mullo intrinsics are replaced by lane-wise wrapping models because Kani's overflow instrumentation would drop wrapping executions. Runtime CPU detection (OnceLock + cpuid) is not executed.",
+        "Trusted: Kani's MIR->goto translation, CBMC 6.11 + CaDiCaL, the reference model in harness/refmodel.rs (independent table copies), the stubs listed per harness in the evidence (each a model of an unsupported intrinsic, a proved contract, or a caller-supplied trait impl). Sums are composed by hand (kernel lemma + structure lemma). SIMD harnesses call each x86 backend directly; packed add/sub/mullo intrinsics are replaced by lane-wise wrapping models because Kani's overflow instrumentation would drop wrapping executions. Runtime dispatch: the ladder is decided with the detection queries stubbed (body_ladder_*); cpuid itself is not executed.",
         'Kani/CBMC bounded model checking (SAT) of the compiled MIR with symbolic inputs; lemma decomposition; native replay of counterexamples',
         'DESIGN.md section 5, C02',
     ),
@@ -48,8 +48,8 @@ CLAIMS = {
         'DESIGN.md section 5, C06',
     ),
     'C07': (
-        'Every optimisation-only arm is proved equal to the SAME configuration-independent reference, so any two configurations agree: Pearson (table-less / double table), Q-ratio distance (naive / 16x16 / 256x256), length distance (naive / table), hex decode (4 arms) and encode (3 arms), low-memory buckets, body distance (5 backends), bucket aggregation (naive, SSE2, SSSE3, AVX2 kernels + structure), and the `unsafe` feature (same lemmas with invariant!() turned into checked assertions).',
-        "Trusted: Kani's MIR->goto translation, CBMC 6.11 + CaDiCaL, the reference model in harness/refmodel.rs (independent table copies), the stubs listed per harness in the evidence (each a model of an unsupported intrinsic, a proved contract, or a caller-supplied trait impl). NOT decided by this technique: the `schedules' quantifier (which thread triggers CPU detection) - Kani does not model threads; the claim is reduced to `every function the OnceLock initialiser can store is equivalent' plus std's OnceLock contract. Also outside: the runtime detection ladder itself (cpuid), static -C target-feature builds, hex-simd, non-x86 backends.",
+        'Every optimisation-only arm is proved equal to the SAME configuration-independent reference, so any two configurations agree: Pearson (table-less / double table), Q-ratio distance (naive / 16x16 / 256x256), length distance (naive / table), hex decode (4 arms) and encode (3 arms), low-memory buckets, body distance (5 backends), bucket aggregation (naive, SSE2, SSSE3, AVX2 kernels + structure), the `unsafe` feature (same lemmas with invariant!() turned into checked assertions), and the run-time dispatch ladders of body distance and aggregation for EVERY outcome of the CPU-feature queries (queries and backends stubbed: the prescribed backend is called with the caller's arguments and the cached choice is reused). The default configuration's use of hex-simd is re-checked against that crate's documented contract.',
+        "Trusted: Kani's MIR->goto translation, CBMC 6.11 + CaDiCaL, the reference model in harness/refmodel.rs (independent table copies), the stubs listed per harness in the evidence (each a model of an unsupported intrinsic, a proved contract, or a caller-supplied trait impl). NOT decided by this technique: the `schedules' quantifier (which thread triggers CPU detection) - Kani does not model threads; the claim is reduced to `every function the OnceLock initialiser can store is equivalent' plus std's OnceLock contract. Also outside: static -C target-feature builds, the hex-simd kernels themselves (contract only), non-x86 backends.",
         'Kani/CBMC bounded model checking (SAT) of the compiled MIR with symbolic inputs; lemma decomposition; native replay of counterexamples',
         'DESIGN.md section 5, C07',
     ),
